@@ -360,6 +360,7 @@ func genC02(c *Ctx) {
 	top("IntSpec", func() { c02Int(c, po, pool) })
 	top("KeySwitch", func() { c02KeySwitchNoP(c) })
 	top("DigitCount", func() { c02DigitCount(c) })
+	top("GadgetVector", func() { c02Gadget(c, po, pool) })
 	_ = r
 }
 
@@ -525,6 +526,7 @@ func c02BasisExt(c *Ctx, po bool, e *c02Env) {
 	r := c.rng
 	N, ringQ, ringP, ch := e.N, e.ringQ, e.ringP, e.ch
 	be := ring.NewBasisExtender(ringQ, ringP)
+	copies := []*ring.BasisExtender{be.ShallowCopy(), be.ShallowCopy().ShallowCopy()}
 	Qs, Ps := e.Qs, e.Ps
 	for _, levelQ := range c02Levels(len(ch.Q)) {
 		for levelP := 0; levelP < len(ch.P); levelP++ {
@@ -592,6 +594,22 @@ func c02BasisExt(c *Ctx, po bool, e *c02Env) {
 						D = MQ
 					}
 					c02OneModDown(c, po, e, be, kind, levelQ, levelP, c02FamValues(c, N, new(big.Int).Mul(MQ, MP), D), "")
+				}
+				// ---- the same operations on ShallowCopy()s of the extender (what Evaluator.ShallowCopy hands out) and on a
+				// copy of a copy: same ties, same reference probes
+				if rep == 0 {
+					for ci, cp := range copies {
+						c.Count(fmt.Sprintf("basisextender:shallow-copy-depth-%d", ci+1))
+						c02OneModUp(c, po, e, cp, "qtop", levelQ, levelP, c02FamValues(c, N, MQ, nil), "")
+						c02OneModUp(c, po, e, cp, "ptoq", levelQ, levelP, c02FamValues(c, N, MP, nil), "")
+						for _, kind := range []string{"qptoq", "qptoqntt", "qptop"} {
+							D := MP
+							if kind == "qptop" {
+								D = MQ
+							}
+							c02OneModDown(c, po, e, cp, kind, levelQ, levelP, c02FamValues(c, N, new(big.Int).Mul(MQ, MP), D), "")
+						}
+					}
 				}
 			}
 		}
